@@ -90,6 +90,9 @@ theorem C04_eqMirror_iff_elems (a b : Bitmap) (ha : a.WF) (hb : b.WF) :
     Bitmap.eqMirror a b = true ↔ Bitmap.elems a = Bitmap.elems b := by
   rw [Bitmap.eq_mirror_eq a b ha.storeInv hb.storeInv]; exact C04_eq_iff_elems a b ha hb
 
+/-- producer row `full()` (inherent.rs:35): well-formed -/
+theorem C04_producer_full : Bitmap.WF Bitmap.full := Bitmap.full_wf
+
 /-- non-vacuity: a well-formed two-chunk value with a bitset chunk; `eqMirror` evaluated through the equality
     theorem (a kernel evaluation of two full `BitmapIter` drains costs ≈ 1 min on the list model), and directly on
     array chunks -/
